@@ -442,6 +442,19 @@ pub fn c03(eng: &mut Engine, rng: &mut Rng, thorough: bool, out: &mut Out) -> Ca
                 }
             }
         }
+        // a request whose names group repeats a name: a group member that no requested name covers must not ride along (F20)
+        {
+            let h = eng.cast.cred("a_alice");
+            let plan = Plan { creds: vec![CredUse { held: h, state_list: None, ts_only: None }],
+                refs: vec![RefPlan { referent: "g".into(), kind: Kind::Group(vec!["name".into(), "name".into()]), cred: Some(0), revealed: true, restrictions: None, non_revoked: None }],
+                global_nr: None, nonce: format!("{}", 1000 + rng.below(1_000_000_000)), holder: 0 };
+            if let Ok(b) = eng.build_legacy(&plan) {
+                emit_legacy(eng, out, &mut cases, "c03.legacy", "c03:group-duplicate-name:honest", "", None, &b.pres, &b.ghosts, &b.agg, &b.req, &o, "safety");
+                let mut p = b.pres.clone();
+                p["requested_proof"]["revealed_attr_groups"]["g"]["values"]["age"] = json!({"raw": "99", "encoded": "99"});
+                emit_legacy(eng, out, &mut cases, "c03.legacy", "c03:group-duplicate-name:unrequested-member-added", "", Some(false), &p, &b.ghosts, &b.agg, &b.req, &o, "safety");
+            }
+        }
         // two credentials: values attributed to the other credential
         let plan = two_cred_plan(rng, eng, "a_alice", "b_alice");
         if let Ok(b) = eng.build_w3c(&plan) {
@@ -1026,4 +1039,87 @@ fn break_plan(rng: &mut Rng, plan: &mut Plan, eng: &Engine) {
             plan.creds[ci].ts_only = Some(20);
         }
     }
+}
+
+// ---------------------------------------------------------------------------------------------
+// C17: material for the native-vs-C-ABI cross check (tools/ffi_check.py drives the exported symbols)
+
+/// a set of verifications (honest and attack scenarios, both formats) with everything needed to repeat them through the C ABI:
+/// request, presentation, schemas, credential definitions, registry definitions, status lists — as JSON — and the native verdict
+pub fn ffi_flows(eng: &mut Engine, rng: &mut Rng, thorough: bool, out: &mut Out) -> Cases {
+    let n = if thorough { 120 } else { 24 };
+    let mut flows: Vec<Value> = vec![];
+    for i in 0..n {
+        let w3c = i % 2 == 1;
+        let with_rev = i % 3 == 0;
+        let plan = gen_honest_plan(rng, &eng.cast, w3c, with_rev);
+        let o = honest_vopts(&eng.cast, &plan);
+        let (rc, _) = build_ctx(&eng.cast, &o, &mut eng.accs);
+        let ctxj = json!({
+            "schemas": rc.schemas.iter().map(|(k, v)| json!([k.0, v])).collect::<Vec<_>>(),
+            "cred_defs": rc.cred_defs.iter().map(|(k, v)| json!([k.0, v])).collect::<Vec<_>>(),
+            "rev_reg_defs": rc.rev_reg_defs.as_ref().map(|m| m.iter().map(|(k, v)| json!([k.0, v])).collect::<Vec<_>>()),
+            "lists": rc.lists.as_ref().map(|l| l.iter().map(|x| serde_json::to_value(x).unwrap()).collect::<Vec<_>>()),
+        });
+        if w3c {
+            let Ok(b) = eng.build_w3c(&plan) else { continue };
+            let reqj = serde_json::to_value(&b.req).unwrap();
+            let pj = serde_json::to_value(&b.pres).unwrap();
+            let (v, _) = eng.verify_w3c(&b.pres, &b.req, &o);
+            flows.push(json!({"format":"w3c","cls":"honest","request":reqj,"presentation":pj,"ctx":ctxj,"native":v}));
+            // an attack variant: another nonce
+            let mut r2 = reqj.clone();
+            r2["nonce"] = json!("31337");
+            let req2: anoncreds::types::PresentationRequest = serde_json::from_value(r2.clone()).unwrap();
+            let (v2, _) = eng.verify_w3c(&b.pres, &req2, &o);
+            flows.push(json!({"format":"w3c","cls":"other-nonce","request":r2,"presentation":pj,"ctx":ctxj,"native":v2}));
+        } else {
+            let Ok(b) = eng.build_legacy(&plan) else { continue };
+            let reqj = serde_json::to_value(&b.req).unwrap();
+            if let Some((v, _)) = eng.verify_legacy(&b.pres, &b.req, &o) {
+                flows.push(json!({"format":"legacy","cls":"honest","request":reqj,"presentation":b.pres,"ctx":ctxj,"native":v}));
+            }
+            // attack variants: a revealed value altered; one identifier too many; a predicate threshold raised in the request
+            let mut p2 = b.pres.clone();
+            if let Some(k) = p2["requested_proof"]["revealed_attrs"].as_object().and_then(|o| o.keys().next().cloned()) {
+                p2["requested_proof"]["revealed_attrs"][k.as_str()]["encoded"] = json!("424242");
+                if let Some((v, _)) = eng.verify_legacy(&p2, &b.req, &o) {
+                    flows.push(json!({"format":"legacy","cls":"encoded-altered","request":reqj,"presentation":p2,"ctx":ctxj,"native":v}));
+                }
+            }
+            let mut p3 = b.pres.clone();
+            let first = p3["identifiers"][0].clone();
+            p3["identifiers"].as_array_mut().unwrap().push(first);
+            if let Some((v, _)) = eng.verify_legacy(&p3, &b.req, &o) {
+                flows.push(json!({"format":"legacy","cls":"extra-identifier","request":reqj,"presentation":p3,"ctx":ctxj,"native":v}));
+            }
+            let mut r4 = reqj.clone();
+            if let Some(k) = r4["requested_predicates"].as_object().and_then(|o| o.keys().next().cloned()) {
+                r4["requested_predicates"][k.as_str()]["p_value"] = json!(100000);
+                let req4: anoncreds::types::PresentationRequest = serde_json::from_value(r4.clone()).unwrap();
+                if let Some((v, _)) = eng.verify_legacy(&b.pres, &req4, &o) {
+                    flows.push(json!({"format":"legacy","cls":"predicate-raised","request":r4,"presentation":b.pres,"ctx":ctxj,"native":v}));
+                }
+            }
+        }
+    }
+    // deterministic operations whose output must be byte-identical through both APIs
+    let d = eng.cast.w.def("A");
+    let schema_native = serde_json::to_string(&anoncreds::issuer::create_schema("gvt", "1.0", d.issuer.clone(), ["name", "age"][..].into()).unwrap()).unwrap();
+    let roundtrips: Vec<Value> = vec![
+        json!(["schema", serde_json::to_string(&d.schema).unwrap()]),
+        json!(["credential_definition", serde_json::to_string(&d.cd).unwrap()]),
+        json!(["key_correctness_proof", serde_json::to_string(&d.kcp).unwrap()]),
+        json!(["credential", serde_json::to_string(&eng.cast.creds[0].cred).unwrap()]),
+        json!(["w3c_credential", serde_json::to_string(&eng.cast.creds[0].w3c).unwrap()]),
+        json!(["revocation_registry_definition", serde_json::to_string(&eng.cast.w.def("R").regs[0].def).unwrap()]),
+        json!(["revocation_status_list", serde_json::to_string(&eng.cast.regs[0].lists[1]).unwrap()]),
+    ];
+    let link_secret: String = eng.cast.holders[0].try_clone().unwrap().try_into().unwrap();
+    let path = format!("/verif/.cache/ffi_flows-{}.json", std::process::id());
+    std::fs::write(&path, serde_json::to_string(&json!({"flows": flows, "schema_native": schema_native, "roundtrips": roundtrips,
+        "link_secret": link_secret})).unwrap()).unwrap();
+    out.count_n("c17:flows", flows.len() as u64);
+    println!("FFI_FLOWS_FILE {path}");
+    vec![]
 }
